@@ -20,9 +20,13 @@ def main():
     rc, out = sh(["git", "-C", "/repo", "worktree", "add", "--detach", d, "HEAD"])
     assert rc == 0, out
     try:
-        for src in sorted(glob.glob("/tmp/seed/C*-out/m*")):
+        root = os.environ.get("SEED_ROOT", "/tmp/seed")
+        rnd = os.environ.get("SEED_ROUND", "")
+        for src in sorted(glob.glob(root + "/C*-out/m*")):
             pid = os.path.basename(os.path.dirname(src))[:3]
             m = os.path.basename(src)
+            if rnd == "2":
+                m = {"m1": "m3", "m2": "m4"}.get(m, m)
             sid = "%s-%s" % (pid, m)
             if only and sid not in only and pid not in only:
                 continue
